@@ -379,8 +379,13 @@ TRReturn ==
     /\ LET o == PendOf(E.p) IN
        /\ viol' = viol \cup ReadChecks(o, E) \cup EtcdCountChecks(o, E)
        /\ pend' = pend \ {o}
+       \* remembered: lists that start a list-then-watch (prefix >= 0), and -- prefix = -1 -- unlimited lists that were
+       \* answered while a write was in flight: their answer is judged again when everything has settled
        /\ rds' = IF o.op = "list" /\ E.err = "" /\ o.limit = 0 /\ o.pfx >= 0
-                 THEN rds \cup {[prefix |-> o.pfx, hdr |-> IF o.rev = 0 THEN E.hdr ELSE o.rev, kvs |-> E.kvs, full |-> TRUE]}
+                 THEN rds \cup {[prefix |-> o.pfx, hdr |-> IF o.rev = 0 THEN E.hdr ELSE o.rev, kvs |-> E.kvs, full |-> TRUE, lo |-> o.lo, hi |-> o.hi]}
+                 ELSE IF o.op = "list" /\ E.err = "" /\ o.limit = 0 /\ (\E x \in pend : IsWrite(x.op))
+                           /\ (o.rev = 0 \/ o.rev <= o.cm0)
+                 THEN rds \cup {[prefix |-> -1, hdr |-> IF o.rev = 0 THEN E.hdr ELSE o.rev, kvs |-> E.kvs, full |-> FALSE, lo |-> o.lo, hi |-> o.hi]}
                  ELSE rds
     /\ UNCHANGED <<idx, ver, hv, floor, cm, base, maxRet, seen, maxRev, evlog, ws, prefixes, cmax, expiring, chg, ttl>>
 
@@ -435,6 +440,13 @@ TQuiesce ==
                                 = {g.rev : g \in {g \in evlog : g.rev >= w.start /\ g.rev <= E.committed
                                                                   /\ g.key \in prefixes[w.prefix + 1]}},
                               "CompleteAtQuiescence") : w \in open }
+               ELSE {})
+         \* "... and returns the same answer whenever it is asked again": a read that was answered at a readable
+         \* revision while writes were in flight still is the snapshot at that revision now that they have landed
+         \cup (IF E.returned
+               THEN UNION { IF rd.prefix = -1 /\ rd.hdr >= floor /\ ~TouchesStar(rd.hdr, rd.lo, rd.hi)
+                            THEN V(rd.kvs = KvTuples(RangeRef(hv, KS, rd.hdr, rd.lo, rd.hi, 0).kvs), "ReadStable")
+                            ELSE {} : rd \in rds }
                ELSE {})
          \cup (IF E.returned /\ E.retryq = 0
                THEN UNION { IF w.prefix = 0 /\ w.start = base + 1
@@ -493,6 +505,7 @@ M_ExpireWholly          == NoViol("ExpireWholly")
 M_ExpiryExpectation     == NoViol("ExpiryExpectation")
 M_UniqueRevision        == NoViol("UniqueRevision")
 M_NoPanic               == NoViol("NoPanic")
+M_ReadStable            == NoViol("ReadStable")
 M_RealTimeOrder         == NoViol("RealTimeOrder")
 M_HeaderCoversData      == NoViol("HeaderCoversData")
 M_NoOvertake            == NoViol("NoOvertake")
